@@ -276,6 +276,14 @@ def run_conelp_family(ctx, judge_status, mix, with_backends=True, op_fraction=0.
         d = pr.dims
         sparse = rng.random() < 0.4
         junk = bool(d.s) and rng.random() < 0.4
+        # hq[k] / hs[k] may be sparse (coneprog docstrings): stored sparse, with structural zeros where the planted
+        # problem allows exact zeros (len() of such a matrix is not its number of rows)
+        sparse_h = False
+        if entry in ("socp", "sdp") and (d.q or d.s) and rng.random() < 0.25:
+            sparse_h = True
+            nz = gp.zero_some_h(rng, pr) if kind in ("feasible", "shortcut") and not junk else 0
+            ctx.count("sparse-h")
+            if nz: ctx.count("sparse-h.structural-zeros")
         kkt, kkt_label = pick_kkt(rng, d, pr)
         start = rng.choices(["none", "primal", "dual", "both"], [0.55, 0.15, 0.15, 0.15])[0]
         opts, oclass = gen_options(rng, d)
@@ -286,6 +294,7 @@ def run_conelp_family(ctx, judge_status, mix, with_backends=True, op_fraction=0.
             if entry == "sdp" and pr.p == 0 and d.s and min(d.s) >= 1 and rng.random() < 0.25:
                 backend = "dsdp"
         if backend:
+            sparse_h = False
             kkt, kkt_label, start, oclass = None, "backend", "none", "default"
             opts = {"show_progress": False, "glpk": {"msg_lev": "GLP_MSG_OFF"}, "msg_lev": "GLP_MSG_OFF",
                     "dsdp": {"DSDP_Monitor": 0}}
@@ -306,7 +315,7 @@ def run_conelp_family(ctx, judge_status, mix, with_backends=True, op_fraction=0.
         if entry == "conelp":
             args = sr.cvx_args(pr, rng, sparseG=sparse, sparseA=sparse and rng.random() < 0.5, junk=junk)
         else:
-            args = sr.wrapper_args(entry, pr, rng, sparse=sparse, junk=junk)
+            args = sr.wrapper_args(entry, pr, rng, sparse=sparse, junk=junk, sparse_h=sparse_h)
         ps = ds = None
         if start != "none":
             ps, ds, _, _ = sr.start_dicts(entry, pr, start, rng)
@@ -682,7 +691,15 @@ def run_classification(ctx, second_path=True):
                        "sv": pr.pl.get("sv") if hasattr(pr, "pl") else None,
                        "rows<n": d.Np < pr.n})
         opts = {"show_progress": False}
-        sol, inner, exc = sr.call_entry(entry, pr, args, options=opts)
+        # a valid user start point (s, z strictly inside the cone; one side or both) does not change the problem:
+        # the classification must be the same (3 cases in 10)
+        start = rng.choices(["none", "primal", "dual", "both"], [0.7, 0.1, 0.1, 0.1])[0]
+        ps = ds = None
+        if start != "none":
+            ps, ds, _, _ = sr.start_dicts(entry, pr, start, rng)
+            ctx.count("start." + start)
+        c.desc["start"] = start
+        sol, inner, exc = sr.call_entry(entry, pr, args, ps=ps, ds=ds, options=opts)
         J = certs.Judge(c, ctx, entry)
         cls_extra = "rowsG<n,p>0" if (d.Np < pr.n and pr.p > 0) else ""
         if exc is not None and isqp and kind != "feasible":
